@@ -1,12 +1,12 @@
 SPECIFICATION GSpec
 CONSTANTS
-  Layouts = {10, 20, 30, 11, 21, 22}
+  Layouts = {20, 30, 21}
   Excs = {"hardware", "other"}
   Depth = 5
   Depth2 = 4
-  Upd = {"a2", "b1"}
-  FC = {}
-  FO = {}
+  Upd = {}
+  FC = {"a1", "a2"}
+  FO = {"o1"}
   UpdAny = TRUE
 CONSTRAINT Bound
 INVARIANT Emit1
